@@ -399,6 +399,14 @@ impl ConvexCell<WithoutFaces> {
                 verif_exact_args,
                 clip,
                 (p.right_idx, p.shift),
+                {
+                    let dual = self.vertices[i].dual;
+                    self.clipping_planes[dual[0]].normal().dot(
+                        self.clipping_planes[dual[1]]
+                            .normal()
+                            .cross(self.clipping_planes[dual[2]].normal()),
+                    )
+                },
             );
             if clip < 0. {
                 num_v -= 1;
